@@ -24,7 +24,7 @@ CHECKS = {
             "extra": [{"run": "TestC10Race", "race": True, "gomaxprocs": 8}]},
     "C17": {"pkg": "verifx/c17", "run": "TestC17", "harness": EXPORTS2, "level": "model_checking", "shards": 16, "gomaxprocs": 2,
             "instrument": ["server/sender.go", "gossip/bus.go"], "quick": {"budget_s": 400}, "thorough": {"budget_s": 3000}},
-    "C18": {"pkg": "verifx/c18", "run": "TestC18", "harness": EXPORTS + ["gossip"], "level": "model_checking", "shards": 10, "gomaxprocs": 2,
+    "C18": {"pkg": "verifx/c18", "run": "TestC18", "harness": EXPORTS + ["gossip"], "level": "model_checking", "shards": 13, "gomaxprocs": 2,
             "instrument": ["gossip/bus.go", "gossip/processor.go", "gossip/topology.go@sync"], "quick": {"budget_s": 400}, "thorough": {"budget_s": 3000},
             "extra": [{"run": "TestC18Race", "race": True, "gomaxprocs": 8}]},
     "C12": {"pkg": "verifx/c12", "run": "TestC12", "harness": EXPORTS, "level": "exploration"},
